@@ -85,8 +85,8 @@ def released_problems(world, server, ctl_transport=None, spy=None, main_port=212
         conns = live_connections(server)
         if conns:
             problems.append({"kind": "connection-table-not-empty", "n": len(conns)})
-    if spy is not None and spy.open_files:
-        problems.append({"kind": "file-handle-open", "paths": sorted(p for p, f in spy.open_files.values())})
+    if spy is not None and spy.leaked():
+        problems.append({"kind": "file-handle-open", "paths": spy.leaked()})
     return problems
 
 
@@ -94,14 +94,14 @@ def tasks_alive(world, ignore=()):
     return [t for t in asyncio.all_tasks(world.loop) if not t.done() and t not in ignore]
 
 
-def closed_problems(world, server, spy=None):
+def closed_problems(world, server, spy=None, advance=0):
     """server.close() must complete and leave no task, socket or listener of the server"""
-    ok, t = world.close_server(server, advance=0)
+    ok, t = world.close_server(server, advance=advance)
     problems = []
     if not ok:
         why = "pending" if not t.done() else repr(t.exception() if not t.cancelled() else "cancelled")
         problems.append({"kind": "server-close-did-not-complete", "why": why})
-    world.settle(0)
+    world.settle(advance)
     left = tasks_alive(world)
     if left:
         problems.append({"kind": "tasks-left", "names": sorted(_tname(x) for x in left)})
@@ -111,8 +111,8 @@ def closed_problems(world, server, spy=None):
     ls = [l for l in world.net.all_listeners if not l.closed and l.owner == "server"]
     if ls:
         problems.append({"kind": "listener-open-after-close", "ports": [l.port for l in ls]})
-    if spy is not None and spy.open_files:
-        problems.append({"kind": "file-handle-open-after-close", "paths": sorted(p for p, f in spy.open_files.values())})
+    if spy is not None and spy.leaked():
+        problems.append({"kind": "file-handle-open-after-close", "paths": spy.leaked()})
     return problems
 
 
